@@ -572,7 +572,7 @@ func Run(r *core.Run) {
 	}
 	batch := r.Pick(20, 40)
 	for start := 0; start < nsess && r.Violations() <= 5; start += batch {
-		if r.Thorough() && time.Since(sessStart) > 18*time.Minute {
+		if r.Thorough() && time.Since(sessStart) > 14*time.Minute {
 			r.Logf("service: time budget of the session driver reached after %d of %d sessions", start, nsess)
 			break
 		}
